@@ -29,6 +29,10 @@ def check(tier, seed):
             xs = (t * 2654435761 + seed + 1).to_bytes(8, 'little') + bytes(24)
             cases.append({'line': f"keygen {s} {xs.hex()}", 'tag': 'keygen_from_seed == model of Algorithm 6 (bulk seeds)', 'want': (lambda o: 'key generation panicked' if o.startswith('panic') else None),
                           'model': True, 'lazy_want': (lambda s=s, xs=xs: ' '.join(x.hex() for x in R.keygen_internal(R.PARAMS[s], xs)))})
+    # a generator that fails - whatever error code it reports, however often - yields no key (the RNG-driven variant has no other behaviour)
+    for s in fam.SETS:
+        for sc in ('errbefore', 'errbefore@11+errbefore@11+errbefore@11+errbefore@11', 'errbefore@4+errbefore@4+errbefore@4', 'errafter@11:' + 'cd' * 32 + '+errafter@11:' + 'cd' * 32 + '+errafter@11:' + 'cd' * 32):
+            cases.append({'line': f"keygen_rng {s} {sc}", 'tag': 'try_keygen_with_rng with a failing generator', 'want': 'err:rng calls=tryfill32', 'model': True})
     # hook level: the samplers of Algorithm 6 against the reference on fresh seeds
     for t in range(40 if tier == 'thorough' else 6):
         r34 = bytes(rng.randrange(256) for _ in range(34))
